@@ -94,7 +94,7 @@ def run_C11(ctx):
     agg = new_agg()
     q = ctx.quick
     r = tlc_client(ctx, "ClientReasons", cfgs([-1, 0, 1, 2]), TAILS, ["clean", "error", "cancel"],
-                   ["transport", "reject", "stream", "cancel_do"], 2 if q else 3, True)
+                   ["transport", "reject", "reject_temp", "stream", "cancel_do"], 2 if q else 3, True)
     drive_client(ctx, r.stdout_path, "reasons", "result,events", "whole,bytewise,mid", agg)
     # retry count is per run of consecutive failures (a successful connection starts a fresh run), and errors that merely look
     # like context errors (a transport's own deadline) while the request's context is alive are ordinary retryable errors
@@ -169,7 +169,9 @@ def retry_body(val):
 
 
 C12_BODIES = [P, retry_body(["d1"]), retry_body(["SP", "d07"]), retry_body(["PLUS", "d1"]), retry_body(["x"]), retry_body([]),
-              retry_body(["d1"] + ["d0"] * 12), P + ["retry", "COLON", "d1", "LF"]]
+              retry_body(["d1"] + ["d0"] * 12), P + ["retry", "COLON", "d1", "LF"],
+              # a valid value, then fields without one on the same connection: the valid one stays in force
+              retry_body(["d2"]) + ["retry", "COLON", "LF"] + P, retry_body(["d2"]) + ["retry", "LF"] + P + ["retry", "COLON", "SP", "LF"]]
 
 
 def c12_cfgs(q):
